@@ -282,8 +282,9 @@ class SimpleForwardModel(ForwardModel):
                                                    Pl,
                                                    mu_profile)
         self.altitude_profile = z[:-1]
-        self.scaleheight_profile = H[:-1]
-        self.gravity_profile = g[:-1]
+        # H and g already hold one value per layer (only z is on the levels)
+        self.scaleheight_profile = H
+        self.gravity_profile = g
         self.altitude_boundaries = z
         self.deltaz = deltaz
 
